@@ -646,6 +646,8 @@ def _walk_worker(i):
         cur = rng.choice(graph.inits)
         hist = []
 
+        twins = []
+
         def run():
             nonlocal cur
             obj = adapter.fresh(graph.states[cur])
@@ -694,6 +696,19 @@ def _walk_worker(i):
                                  "expected": [{"outcome": o, "obs": graph.obs[tk]} for o, tk in outs][:3],
                                  "observed": {"outcome": got, "obs": obs}})
                     return
+                # a second object left behind by this step (a copy, or the source when the walk goes on with the copy)
+                # must keep reading as the state it was made in, whatever happens to the other one
+                for tw, tstate, born in twins:
+                    tobs = adapter.observe(tw, None)
+                    w_ = adapter.compare(tobs, graph.obs[tstate], graph.states[tstate])
+                    if w_ is not None:
+                        v.fail({"subject": adapter.subject, "op": op.get("op"), "variant": variant, "what": "second-object:" + str(w_), "mode": "walk"},
+                               {"concretisation": adapter.name, "walk_history": list(hist), "second_object_made_at_step": born,
+                                "second_object_expected": graph.obs[tstate], "second_object_observed": tobs})
+                        return
+                if got.get("twin") is not None:
+                    twins.append((got["twin"], nxt, len(hist)))
+                    del twins[:-2]
                 cur = nxt
         try:
             with_timeout(run, 30.0)
